@@ -317,7 +317,7 @@ def run(tier, replay=None):
         "violations": ncand,
     }
     # a replay or a binding demonstration is not evidence of a run
-    ev_path = os.path.join(vlib.EVID, PID + ".json") if not replay and not os.environ.get("XROBLOX_CORRUPT") else os.path.join(wd, "evidence-scratch.json")
+    ev_path = os.path.join(vlib.VERIF, "extra", PID + ".json") if not replay and not os.environ.get("XROBLOX_CORRUPT") else os.path.join(wd, "evidence-scratch.json")
     os.makedirs(vlib.EVID, exist_ok=True)
     with open(ev_path, "w") as f:
         json.dump(ev, f, indent=1, sort_keys=True)
